@@ -27,6 +27,16 @@ fn hist_scenarios(id: &str, tier: &str) -> Option<(Vec<Scenario>, Option<hist::O
     }
 }
 
+/// Properties decided by engines other than the history explorer.
+fn other_check(id: &str, tier: &str, seed: u64) -> Option<i32> {
+    match id {
+        "C13" => Some(props::c13::run(tier, seed)),
+        "C14" => Some(props::c14::run(tier, seed)),
+        "C15" => Some(props::c15::run(tier, seed)),
+        _ => None,
+    }
+}
+
 fn usage() -> ! {
     eprintln!("usage: vmc check <ID> <quick|thorough> | vmc worker ... | vmc replay <file>");
     std::process::exit(2)
@@ -46,7 +56,9 @@ fn main() {
                 usage();
             }
             let (id, tier) = (args[2].as_str(), args[3].as_str());
-            let code = if let Some((sc, _)) = hist_scenarios(id, tier) {
+            let code = if let Some(c) = other_check(id, tier, seed) {
+                c
+            } else if let Some((sc, _)) = hist_scenarios(id, tier) {
                 let expected: Vec<(String, usize)> = sc.iter().map(|s| (s.name.clone(), s.bounds.depth)).collect();
                 let rule = format!(
                     "every sequence of macro operations over the scenario alphabets within the depth / deviation bounds, each executed on the real engine through its JSON-RPC dispatch table; scenarios: {}; a path is non-trivial when it contains a deviation and was observed; distinct = distinct observation digests",
